@@ -134,20 +134,26 @@ def run_behaviour(pool: Pool, scn, events, row0, float_ticks=False, est_ranges=N
         v["est"] = est
         return v
 
+    def acct(snapshot):
+        a = act.broker.get_account_status(snapshot.prices)
+        return (frac(Decimal(a.net_value)), frac(Decimal(a.asset_value)), frac(Decimal(a.market_status[market.market_info].net_value)))
+
     class S(Strategy):
         def on_bar(self_, snapshot):
             for ev in bars[snapshot.row_id]:
                 n0 = len(act.actions)
+                nv0 = acct(snapshot)[0]
                 try:
                     ret = do(ev)
                     out, exc = "ok", None
                 except Exception as e:
                     ret, out, exc = None, "reject", f"{type(e).__name__}: {e}"
                 recs.append({"out": out, "exc": exc, "ret": ret, "proj": project(market, pool, act.broker),
-                             "view": views(), "nacts": len(act.actions) - n0})
+                             "view": views(), "nacts": len(act.actions) - n0, "nv0": nv0, "acct": acct(snapshot)})
 
         def after_bar(self_, snapshot):
-            recs.append({"endbar": True, "proj": project(market, pool, act.broker), "view": views(), "last_tick": market.last_tick})
+            recs.append({"endbar": True, "proj": project(market, pool, act.broker), "view": views(), "last_tick": market.last_tick,
+                         "acct": acct(snapshot)})
 
     act.strategy = S()
     err = None
@@ -261,6 +267,40 @@ def compare_run(pool: Pool, recs, err, steps, tally, init_proj=None, init_st=Non
                 mm += cmp_state(rec["proj"], st, tally)
         if not mm and views is not None:
             mm += cmp_view(pool, rec["view"], views[i], tally)
+            # C01 at the account level: wallet at the bar's prices + the market's value (the pool's quote token is the account's)
+            tally("C01/uni_account_net_value")
+            price = Q(views[i]["price"])
+            w = (Q(st["w"][0]), Q(st["w"][1])) if ev["op"] != "endbar" else rec["proj"]["w"]
+            b, q = (w[1], w[0]) if pool.zq else (w[0], w[1])
+            spec_av, spec_mv = b * price + q, Q(views[i]["net"])
+            nv, av, mv = rec["acct"]
+            if not close(av, spec_av, REL, ABS):
+                mm.append(MM("C01", "asset_value", f"asset_value code {float(av)!r} spec {float(spec_av)!r}"))
+            elif not close(mv, spec_mv, REL, ABS):
+                mm.append(MM("C01", "market_net_value", f"uniswap net_value code {float(mv)!r} spec {float(spec_mv)!r}"))
+            elif not close(nv, spec_av + spec_mv, REL, ABS):
+                mm.append(MM("C01", "net_value", f"account net_value code {float(nv)!r} spec {float(spec_av + spec_mv)!r}"))
+        if not mm and ev["op"] != "endbar":
+            # C03: frozen market.  add/remove/collect conserve the reported net value up to wallet dust (and the integer liquidity
+            # floor, far below); buy/sell lose exactly the reported fee; nothing negative
+            tally("C03/uni_value_conserved")
+            dv = rec["acct"][0] - rec["nv0"]
+            wv = rec["acct"][1] + abs(dv)
+            dust = Fraction(1, 10 ** 5) * wv + Fraction(1, 10 ** 9) * (rec["acct"][0] + 1)
+            if ev["op"] in ("add", "remove", "collect"):
+                if abs(dv) > dust:
+                    mm.append(MM("C03", "value_not_conserved", f"{ev['op']} ({rec['out']}) changed net value by {float(dv)!r} (dust {float(dust)!r})"))
+            elif rec["out"] == "ok" and rec["ret"] is not None:
+                fee = frac(Decimal(rec["ret"]["fee"]))
+                fee_q = fee if ev["op"] == "buy" else fee * Q(views[i]["price"]) if views is not None else fee
+                if abs(dv + fee_q) > dust:
+                    mm.append(MM("C03", "swap_loses_fee", f"{ev['op']} changed net value by {float(dv)!r}, reported fee {float(fee_q)!r} (quote)"))
+            elif dv > dust:
+                mm.append(MM("C03", "value_created", f"{ev['op']} ({rec['out']}) raised net value by {float(dv)!r}"))
+            tally("C03/uni_non_negative")
+            pr = rec["proj"]
+            if min(pr["w"]) < 0 or any(l < 0 or a < 0 or b_ < 0 for l, a, b_ in pr["pos"].values()):
+                mm.append(MM("C03", "negative_holding", f"after {ev['op']}: wallet {pr['w']} positions {pr['pos']}"))
         if mm:
             return mm, i
         prev_proj, prev_st = rec["proj"], {"pos": {tuple(k): v for k, v in st["pos"].items()}}
